@@ -322,6 +322,7 @@ Definition case := (spec * list string * list string)%type.
 Definition agrees (cf : cfg) (c : case) : bool :=
   let '(s, obs_inits, obs_sd) := c in
   let t := construct cf s in
-  list_str_eqb (realised_names cf t) obs_inits && list_str_eqb (sd_keys t) obs_sd.
+  (* as key sets: the order in which initializers are registered / keys are listed is not part of the property *)
+  perm_str_eqb (realised_names cf t) obs_inits && perm_str_eqb (sd_keys t) obs_sd.
 Fixpoint disagreeing (cf : cfg) (i : nat) (cs : list case) : list nat :=
   match cs with [] => [] | c :: t => ((if agrees cf c then [] else [i]) ++ disagreeing cf (S i) t)%list end.
